@@ -178,6 +178,16 @@ def reindex_database(
         else {}
     )
 
+    # The hash map is NOT written when a run is aborted, so it may still list
+    # pages that such a run has removed from the DB. What we know about those
+    # pages is worthless (they MUST be indexed again if they ever come back).
+    indexed_page_names = set(session.repo.get_page_names())
+    old_file_to_hash = {
+        page_name: hash_
+        for page_name, hash_ in old_file_to_hash.items()
+        if page_name in indexed_page_names
+    }
+
     error_file_whitelist = _get_error_file_whitelist(cmd.zettel_dir)
     error_files = error_file_whitelist.read_text().split("\n")
 
@@ -192,9 +202,7 @@ def reindex_database(
         # we indexed them MUST NOT linger in the DB.
         # NOTE: We ask the DB (instead of the old hash map) what pages it
         # contains since the hash map is NOT written when a run is aborted.
-        for zorg_page_name in sorted(
-            set(session.repo.get_page_names()) - set(file_to_hash)
-        ):
+        for zorg_page_name in sorted(indexed_page_names - set(file_to_hash)):
             if session.repo.remove_file_by_name(zorg_page_name) is not None:
                 num_of_updates += 1
                 c.zprint(
